@@ -221,8 +221,17 @@ def run(ctx):
                          "instanceID is a read-only preload of the instance_id setting (default uid)", w2j.loc(), why_fail=repr(k))
             if k.get("name") == "instanceName":
                 r5.check(k.get("bind") == {"calculate": iname} and k.get("type") == "calculate", f"meta[{desc}]:instanceName", "instanceName calculates exactly the instance_name setting", w2j.loc(), why_fail=repr(k))
-    from .c19 import meta_sealed_rule
+    from .c19 import meta_sealed_rule, nsmap_table, _NS_CASES
     meta_sealed_rule(ctx, r5, "C11.R5")
+    # `namespaces` setting -> root declarations, for this form only
+    for desc, feats, ns, res in nsmap_table(ctx, "C11.R1"):
+        if res == "shared-table-mutated":
+            r1.fail("get_nsmap:shared table", desc, "pyxform/survey.py")
+            continue
+        want = {f"xmlns:{p_}": u for p_, u in _NS_CASES[ns]} if ns else {}
+        r1.check(isinstance(res, dict) and all(res.get(k) == v for k, v in want.items()) and
+                 not any(k.startswith("xmlns:") and k[6:] in {p_ for c_ in _NS_CASES.values() for p_, _u in c_} and k not in want for k in res),
+                 f"namespaces[{desc}]", "exactly this form's `namespaces` setting is declared on the root, next to the standard ones", "pyxform/survey.py", why_fail=f"{res!r}"[:200])
     rules.append(r5)
 
     # ------------------------------------------------------------------ R6
